@@ -201,6 +201,9 @@ zckRange ZCK_PUBLIC_API *zck_get_missing_range(zckCtx *zck, int max_ranges) {
     for(zckChunk *chk = zck->index.first; chk; chk = chk->next) {
         if(chk->valid)
             continue;
+        /* A chunk without any stored bytes has nothing to request */
+        if(chk->comp_length == 0)
+            continue;
 
         if(!range_add(range, chk, zck)) {
             zck_range_free(&range);
